@@ -124,7 +124,7 @@ WIDENED = {
  'C14': 'bare managed() of a list and of a registered class, proxies used inside the server process, raising calls through every path.',
  'C16': 'results that are exception objects; submissions that raise, in the all-rankings plans and seeded cases; 6-12 concurrent no-backpressure callers on both sides; Server.stream vs AsyncServer.stream when the second submission fails with ServerBacklogFull.',
  'C17': 'race rounds (more consumers than items, then the stop request); stop after a lost race.',
- 'C18': 'abandoned requests followed by more requests; latencies around the 0.1 s / 1 s polling intervals; handlers raising 12 exception classes incl. those the library uses for its own control flow; directed late-reader pipe cases (known finding) with per-peer stack dumps.',
+ 'C18': 'abandoned requests followed by more requests; latencies around the 0.1 s / 1 s polling intervals; handlers raising 12 exception classes incl. those the library uses for its own control flow; directed late-reader pipe cases with per-peer stack dumps (a known finding for most of the session, repaired at the end).',
  'C19': 'the end marker arrives as an equal, distinct object (pickle round trip), value-equal marker class, real spawn-context multiprocessing.Queue rounds.',
  'C20': 'level settings on a named logger or on the handler; whole parent programs (subprocess) with a slow file handler that wait with join / result / result(timeout) for a daemon or non-daemon child and end at once.',
 }
@@ -171,7 +171,7 @@ WIDENED3 = {
  'C15': 'messages with lone surrogates, NUL, astral characters, line separators.',
  'C16': 'the time limit of a request that first waits for room (capacity 1, service 0.6 s, timeout 0.65 s) on both servers.',
  'C17': 'per-round events for all parties in the multi-round process cases, delay sites inside the lid-moving section of consumer processes; blocked put / get with an explicit long timeout when the stop is requested; a second early-put known finding (two suppliers).',
- 'C18': 'payloads / responses that pickle on one side and cannot be rebuilt on the other.',
+ 'C18': 'payloads / responses that pickle on one side and cannot be rebuilt on the other; both pipe objects exist before either side acts in the scripted exchanges; early-reader cases (one side in its first recv before the other side is created).',
  'C20': 'records with unpicklable extra attributes and exception info; children silent for 6.5 s before they log.',
 }
 for _k, _v in WIDENED3.items():
